@@ -6,7 +6,10 @@ use indexmap::IndexMap;
 use itertools::{Either, Itertools, Position};
 
 use crate::{
-    ast::{DataTypeKey, DecoratorKind, Pattern, TypedClause, TypedDataType, TypedPattern},
+    ast::{
+        DataTypeKey, DecoratorKind, Pattern, TypedClause, TypedDataType, TypedPattern,
+        canonical_int_literal,
+    },
     expr::{Type, TypeVar, TypedExpr, lookup_data_type_by_tipo},
     gen_uplc::builder::get_constr_index_variant,
     tipo::PatternConstructor,
@@ -846,7 +849,9 @@ impl<'a, 'b> TreeGen<'a, 'b> {
 
                 let (case, remaining_patts) = match col.pattern {
                     Pattern::Var { .. } | Pattern::Discard { .. } => (CaseTest::Wild, vec![]),
-                    Pattern::Int { value, .. } => (CaseTest::Int(value.clone()), vec![]),
+                    Pattern::Int { value, .. } => {
+                        (CaseTest::Int(canonical_int_literal(value)), vec![])
+                    }
                     Pattern::ByteArray { value, .. } => (CaseTest::Bytes(value.clone()), vec![]),
                     Pattern::List { elements, tail, .. } => (
                         if tail.is_none() {
